@@ -187,6 +187,67 @@ def local_giveup(tree, call, unparse):
         return list(OS_UNIVERSE), False, 'giveup=%s could not be tabulated (%r): assumed to give up on everything' % (unparse(node), e)
 
 
+def _mentions_self(node):
+    return any(isinstance(x, ast.Name) and x.id == 'self' for x in ast.walk(node))
+
+
+def _stores_on_self(fn):
+    """assignments / deletions / setattr on attributes of `self` inside `fn` → list of attribute names"""
+    out = []
+    for x in ast.walk(fn):
+        if isinstance(x, ast.Attribute) and isinstance(x.ctx, (ast.Store, ast.Del)) and isinstance(x.value, ast.Name) and x.value.id == 'self':
+            out.append(x.attr)
+        if isinstance(x, ast.Call) and isinstance(x.func, ast.Name) and x.func.id in ('setattr', 'delattr') and x.args \
+                and isinstance(x.args[0], ast.Name) and x.args[0].id == 'self':
+            out.append('setattr')
+        if isinstance(x, (ast.Global, ast.Nonlocal)):
+            out.append('global')
+    return out
+
+
+def upload_creds_fresh(fn, unparse):
+    """`B2._get_upload_url_token` → (fresh?, note).  fresh = the method has one shape only: it sends a request to b2_get_upload_url
+    at the top level of its body (every call), every `return` comes after that request, at the top level, and returns something that
+    does not mention `self`; nothing is stored on `self` (or in a global).  Upload credentials have a lifetime (24 h, or until the
+    pod rejects them): a pair kept on the object outlives it."""
+    if fn is None:
+        return False, '_get_upload_url_token not found'
+    src_all = unparse(fn)
+    if 'b2_get_upload_url' not in src_all:
+        return False, 'no request to b2_get_upload_url in _get_upload_url_token'
+    req_at = None
+    for i, st in enumerate(fn.body):
+        if isinstance(st, (ast.Assign, ast.Expr, ast.AnnAssign)) and any(
+                isinstance(x, ast.Call) and isinstance(x.func, ast.Attribute) and x.func.attr in ('post', 'get', 'request')
+                and '_client' in unparse(x.func) for x in ast.walk(st)):
+            req_at = i
+            break
+    if req_at is None:
+        return False, 'the request to b2_get_upload_url is not an unconditional top-level statement of _get_upload_url_token'
+    top_returns = {id(st) for st in fn.body[req_at + 1:] if isinstance(st, ast.Return)}
+    for x in ast.walk(fn):
+        if isinstance(x, ast.Return):
+            if id(x) not in top_returns:
+                return False, 'a `return` of _get_upload_url_token does not follow the request (line %d: %s)' % (x.lineno, unparse(x)[:60])
+            if x.value is None or _mentions_self(x.value):
+                return False, 'a `return` of _get_upload_url_token hands out state of the object (line %d: %s)' % (x.lineno, unparse(x)[:60])
+    stored = _stores_on_self(fn)
+    if stored:
+        return False, '_get_upload_url_token keeps state on the object: %s' % sorted(set(stored))
+    if not top_returns:
+        return False, '_get_upload_url_token has no return after the request'
+    return True, None
+
+
+def calls_method_inside(fn, method, unparse):
+    """`fn` (a decorated B2 method) calls `self.<method>()` in its own body and stores nothing on `self`"""
+    if fn is None:
+        return False
+    called = any(isinstance(x, ast.Call) and isinstance(x.func, ast.Attribute) and x.func.attr == method
+                 and isinstance(x.func.value, ast.Name) and x.func.value.id == 'self' for x in ast.walk(fn))
+    return called and not _stores_on_self(fn)
+
+
 def section(ctx):
     emit, notes, unparse = ctx.emit, ctx.notes, ctx.unparse
 
@@ -302,6 +363,23 @@ def section(ctx):
         # `requires_auth` must be the OUTER decorator: AuthRequired leaves the back-off loop and reaches it
         outer = bool(ds) and ds[0].endswith('requires_auth') and reauth_deco in ds[1:] if reauth_deco else False
         emit(f'def {prefix}RequiresAuth : Bool := {_b(outer)}')
+
+    # credentials with a lifetime on a long-lived object (sessions, `ReplicatModel/RetryCred.lean`)
+    fresh, why = upload_creds_fresh(ctx.find_func(tree, 'B2', '_get_upload_url_token'), unparse)
+    emit(f'def retryB2UploadCredsFresh : Bool := {_b(fresh)}   -- `_get_upload_url_token` asks b2_get_upload_url on every call and returns that answer; nothing is kept on the object')
+    if why:
+        notes['retry:b2-upload-credentials'] = why
+    in_attempt = all(calls_method_inside(ctx.find_func(tree, 'B2', m), '_get_upload_url_token', unparse) for m in ('upload', 'upload_stream'))
+    emit(f'def retryB2UploadCredsInAttempt : Bool := {_b(in_attempt)}   -- upload / upload_stream fetch them inside the retried body and keep them in locals')
+    session_methods = ('_get_bucket', 'exists', '_get_upload_url_token', 'upload', 'upload_stream', 'download', 'download_stream',
+                       '_list_file_names', 'delete')
+    all_dec, all_ra = reauth_deco is not None, reauth_deco is not None
+    for m in session_methods:
+        ds = decorators(ctx.find_func(tree, 'B2', m), unparse)
+        all_dec = all_dec and reauth_deco in ds
+        all_ra = all_ra and bool(ds) and ds[0].endswith('requires_auth') and reauth_deco in ds[1:]
+    emit(f'def retryB2SessionDecorated : Bool := {_b(all_dec)}   -- every B2 method that talks to the service carries the re-authenticating back-off decorator')
+    emit(f'def retryB2SessionRequiresAuth : Bool := {_b(all_ra)}   -- … inside `requires_auth`')
 
     # ------------------------------------------------------------------ utils.requires_auth
     src = (ctx.REPO / 'replicat' / 'utils' / '__init__.py').read_text()
